@@ -247,11 +247,11 @@ func doSelect(in *interpreter, fr *frame, instr *ssa.Select) value {
 }
 
 func (in *interpreter) spawn(fr *frame, instr *ssa.Go, fn value, args []value) {
-	if in.sch != nil {
-		in.sch.spawn(fn, args)
-		return
+	if in.sch == nil {
+		// target code starts goroutines: explore them with blocking switches only
+		in.sch = newScheduler(in, 0)
 	}
-	panic(engineAbort{"unsupported: go statement outside a scheduler harness"})
+	in.sch.spawn(fn, args)
 }
 
 // ---------------------------------------------------------------- lockset monitor
